@@ -731,11 +731,10 @@ class choice_converters:
                             flag = True
                         else:
                             flag = False
-                    if flag and value.lower() not in flags:
-                        if ignore_errors:
-                            continue
-                        else:
+                    if value.lower() not in flags:
+                        if flag and not ignore_errors:
                             raise_not_a_possible_choice(value)
+                        continue
                     flags[value.lower()] = flag
         words = []
         for word in master.words:
